@@ -93,7 +93,7 @@ def run(ctx, rep):
     # ---------------- R02.3 -------------------------------------------------------------
     M = c09.OpenModel(ctx)
     g, P = M.g, M.P
-    applies = [n for n in M.applies if n[0] == 0]
+    applies = sorted(M.applies)      # the replay call, wherever open's helpers put it
     if rep.expect("R02.3", "apply call in RaftLog::open", len(applies) == 1, "expected one replay call of apply in open, found %d" % len(applies)):
         an = applies[0]
         a = [strip_ids(x) for x in event_args(g, an)]
